@@ -20,11 +20,14 @@ def run(rep):
     if rep.tier == 'thorough':
         for feat in ('safe_active_fiber', 'safe_stack', 'safe_vm_opcodes', 'safe_class_lookup', 'debug_stress_gc'):
             worlds.append(('rel+' + feat, rep.world('rel+' + feat)))
-    v1(rep, worlds)
-    v2(rep, dev)
-    v3(rep, worlds)
-    v4(rep, rel)
-    v5(rep, dev)
+    rep.guard(v1, rep, worlds)
+    rep.guard(v2, rep, dev)
+    rep.guard(v3, rep, worlds)
+    rep.guard(v4, rep, rel)
+    rep.guard(v5, rep, dev)
+    import c09, c16
+    rep.guard(c09.f4, rep, dev)     # an error raised after the raw active-fiber pointer was switched is reported on another fiber in builds that read the pointer
+    rep.guard(c16.g2, rep, dev)     # the paced and the stress collector run at the same point of an allocation (before the new object is registered)
 
 
 def features_of(snip):
@@ -242,6 +245,10 @@ def v4(rep, rel):
 PROGRAM_INT_SOURCES = ('validate_integer', 'begin', 'end', 'current', 'step')
 
 
+import re as _re
+_re_abs = _re.compile(r'num::<impl (isize|i64|i32)>::(abs|pow|neg|signum_overflow)$')
+
+
 def v5(rep, w, rid='V5'):
     """overflow checks exist only in the checked build: arithmetic on a program-chosen integer that can overflow panics there and
     wraps silently in the optimised build. Every overflow-checked isize/i64 operation reachable from Vm::run whose operands derive
@@ -265,7 +272,9 @@ def v5(rep, w, rid='V5'):
                 continue
             has = any((s.get('r', {}).get('rv') == 'bin' and 'WithOverflow' in s['r']['op']) or (s.get('r', {}).get('rv') == 'un' and s['r']['op'] == 'Neg')
                       for b in f.blocks for s in b['s'])
-            if not has:
+            # integer methods of std that overflow for the most negative value (checked builds panic, optimised builds wrap)
+            abs_calls = [(bi, t) for bi, t in f.calls() if _re_abs.search(callee_name(t) or '')]
+            if not has and not abs_calls:
                 continue
             org = origins(f)
             it = cn.Interp(w, f, {})
@@ -300,6 +309,23 @@ def v5(rep, w, rid='V5'):
                 else:
                     r.bad(key, 'the operation can overflow isize for program-chosen operands (%s, %s): the checked build panics with "attempt to '
                           '%s with overflow" where the optimised build wraps and carries on' % (short(a), short(b), op[:3].lower()), f.loc(sp))
+            for (bi, t) in abs_calls:
+                if not t['args']:
+                    continue
+                pl = op_place(t['args'][0])
+                toks = set()
+                for q in org.get(pl['l'], ()) if pl else ():
+                    toks |= {x for x in q[1:] if not x.startswith('@') and x != '*'}
+                    if q[0][0] == 'call':
+                        toks.add(q[0][2].rsplit('::', 1)[-1])
+                if not (toks & set(PROGRAM_INT_SOURCES)):
+                    continue
+                st = it.transfer_prefix(bi, len(f.blocks[bi]['s']))
+                iv = it.eval_op(st, t['args'][0])
+                meth = (callee_name(t) or '').rsplit('::', 1)[-1]
+                key = '%s / %s() on %s' % (p.replace('yarel::', ''), meth, '+'.join(sorted(toks & set(PROGRAM_INT_SOURCES))))
+                r.check(iv[0] > ISZ[0], key, 'isize::%s overflows for isize::MIN and the operand can be %s: the checked build panics ("attempt to negate with overflow") where '
+                        'the optimised build wraps and carries on' % (meth, short(iv)), f.loc(t.get('sp')))
         # the parameter bounds used above are established by every caller
         for e in ptab:
             g = w.require_fn(e['fn'], 'C10')
